@@ -66,6 +66,8 @@ def enabled(m, cfg, out):
                     sts.append(("op2", out, ("t", a), ("c", "c1"), o))
     for tgt in srcs:
         shp = m.shape(tgt)
+        if cfg.get("fails"):
+            sts.append(("failset", tgt))  # an in-place update that raises: nothing may change, also for later statements
         for iname in cfg.get("set_idx", ()):
             if not INDICES[iname][2](shp):
                 continue
